@@ -58,6 +58,7 @@ type Prog struct {
 	muOwner           map[string]muOwnerInfo
 	capImm            map[*ssa.FreeVar]bool
 	stableFa          map[string]int
+	closesUnder       map[string][]guardedField
 	ContractFilesUsed []string
 	MirrorUsed        []string
 }
@@ -545,6 +546,7 @@ func (p *Prog) buildGuards() {
 	p.guardOf = map[string]guardInfo{}
 	p.guardedBy = map[string][]guardedField{}
 	p.muOwner = map[string]muOwnerInfo{}
+	p.closesUnder = map[string][]guardedField{}
 	u := &Unit{P: p}
 	for key, ts := range p.TypeSpecs {
 		i := strings.LastIndex(key, ".")
@@ -567,6 +569,19 @@ func (p *Prog) buildGuards() {
 		var tags []string
 		for _, cl := range ts.Clauses {
 			tags = mergeTags(tags, cl.Tags)
+		}
+		for f, mu := range ts.ClosesUnder {
+			fi, ok1 := idx[f]
+			mi, ok2 := idx[mu]
+			if !ok1 || !ok2 {
+				fmt.Fprintf(os.Stderr, "closes_under: unknown field %s or %s in %s\n", f, mu, key)
+				continue
+			}
+			mfn := u.fieldFn(tn.Type(), mi)
+			p.closesUnder[mfn] = append(p.closesUnder[mfn], guardedField{faFn: u.fieldFn(tn.Type(), fi), typ: st.Field(fi).Type(), name: f})
+			if nt, ok := tn.Type().(*types.Named); ok {
+				p.muOwner[mfn] = muOwnerInfo{key: key, typ: nt, pkg: pk}
+			}
 		}
 		for f, mu := range ts.Guarded {
 			fi, ok1 := idx[f]
